@@ -16,7 +16,7 @@ EXPLANATION = (
     'least Acquire, every store at least Release, and the timer counter is only touched by an atomic read-modify-write; R08.d the '
     'eviction test reads the waker count before the woken flag with an Acquire fence in between (the reverse of the order in which '
     'CommandWaker publishes them); R08.e Command::poll_next registers the host waker before it runs tasks or reads its queues (a resolve on '
-    'another thread landing after the last look but before a late registration would wake nobody). Linearizability of concurrent calls is not decided. R08.f the bridge registry looks up, resolves and removes an entry inside one lock region and resolver state is written only by its own resolve; R08.g update / view take the model through blocking guards of the model lock (shared with C03).')
+    'another thread landing after the last look but before a late registration would wake nobody). Linearizability of concurrent calls is not decided. R08.f the bridge registry looks up, resolves and removes an entry inside one lock region and resolver state is written only by its own resolve; R08.g update / view take the model through blocking guards of the model lock (shared with C03). R08.j the legacy shell futures check their slot and store their waker inside one region of the shared-state lock, which the resolve closure also takes (shared with C05).')
 
 LOCK_CALLS = ['std::sync::poison::mutex::Mutex::lock', 'std::sync::poison::rwlock::RwLock::read',
               'std::sync::poison::rwlock::RwLock::write', 'std::sync::poison::mutex::Mutex::try_lock']
@@ -332,13 +332,7 @@ def check(ctx, rep):
     if res is None:
         rep.missing('R08.f', 'ResolveRegistry::resume')
     else:
-        regions = c03.lock_regions(res, ['std::sync::poison::mutex::Mutex::lock'])
-        ops = [bb for bb, t in res.calls('slab::Slab::get_mut', 'slab::Slab::get', 'slab::Slab::remove', 'slab::Slab::try_remove',
-                                         'crux_core::bridge::request_serde::ResolveSerialized::resolve')]
-        ok = len(regions) == 1 and len(ops) >= 3 and all(b in regions[0][3] for b in ops)
-        rep.expect('R08.f', ok, 'resume|one-lock-region', 'lookup, resolve and remove lie in the single region of the registry lock',
-                   'ResolveRegistry::resume: the lookup, the resolution and the removal of an entry are not inside one region of the registry lock '
-                   '(%d lock region(s)): a concurrent response for the same id can interleave' % len(regions))
+        c09.check_resume_atomic(rep, 'R08.f', res)
     c09.check_entry_writers(rep, 'R08.f', core)
     # R08.h: when all calls have returned the core is quiescent and no wake-up was dropped: the executor loops run to quiescence and a task
     # another thread is polling gets its id back on the ready queue (shared with C01 R01.e); R08.i every wake does the whole job
@@ -347,6 +341,11 @@ def check(ctx, rep):
     from rules.props import c05 as _c05
     rep.rule('R08.i', 'every way of waking a task waker enqueues the task, marks it woken and wakes the parent, on every path', floor=5)
     _c05.check_wake_impls(rep, 'R08.i', core, None)
+    # R08.j: the legacy capability futures are resolved from any thread: the poll checks its slot and stores its waker inside ONE region of
+    # the shared-state lock, and the resolve closure delivers and takes the waker under the same lock (a resolution landing between an
+    # unlocked check and the store would find no waker and the poller would sleep on a non-empty slot) (shared with C05 R05.d / R05.e)
+    rep.rule('R08.j', 'legacy shell futures check and register under one lock, which the resolve closure also takes; a delivery always wakes the stored waker', floor=6)
+    _c05.check_legacy_futures(rep, 'R08.j', 'R08.j', core)
     # R08.g: concurrent callers serialise on the model lock and each one finishes its own work: update takes the model through a BLOCKING
     # write() (a try_write that gives up leaves the caller's events to "whoever holds the lock", which may be a reader in view())
     rep.rule('R08.g', 'App::update / App::view take the model through blocking guards of the model lock; update is alone in its region', floor=2)
